@@ -35,14 +35,23 @@ def fluor_groups(sc, tier, prefix, no_safety=True):
                     backends=("cvc5",), timeout=900, functions=["CS_FluorLine"], native_harness="harness/h_fluor.c",
                     stubs_used=used_l, no_safety=no_safety, export_local=True, expect_canaries=["another shell"],
                     restrict_retry="V_RESTRICT_LEAVES"))
+    # the lines of each shell, enumerated with a constant line in chunks of 16 macro values (the chunks cover the
+    # name-derived block exactly; the Siegbahn groups of a shell ride on its first chunk)
+    ctx = common.prepare(sc)
+    CH = 16
     for cls, extra in (("K", ["-DENUM_EXTRA1=KA_LINE", "-DENUM_EXTRA2=KB_LINE"]), ("L1", []), ("L2", []), ("L3", ["-DENUM_EXTRA1=LA_LINE"])):
-        defs = ["-DENUM_LO=SPEC_%s_LINES_LO" % cls, "-DENUM_HI=SPEC_%s_LINES_HI" % cls, "-DENUM_CLS=%s_SHELL" % cls] + extra
-        gs.append(Group("%s.K2.CS_FluorLine.lines_%s" % (prefix, cls), "K2", "lemma_CS_FluorLine_enum", sources=["src/cs_line.c"],
-                        extra=["harness/h_fluor.c", stub_l, common.STATE], remove_bodies=["CS_FluorShell"], unwind=130,
-                        backends=("cvc5",), timeout=900, functions=["CS_FluorLine"], native_harness="harness/h_fluor.c",
-                        stubs_used=used_l, no_safety=no_safety, export_local=True, harness_defines=defs,
-                        expect_canaries=["no rate", "CS_FluorLine defined"], restrict_retry="V_RESTRICT_LEAVES",
-                        note="all macro values of the name-derived block enumerated with a constant line"))
+        vals = sorted(v for n, v in ctx["mac"].lines_all if v < 0 and __import__("re").match(r"^%s(?![0-9])" % cls, n))
+        first = True
+        for lo in range(vals[0], vals[-1] + 1, CH):
+            hi = min(lo + CH - 1, vals[-1])
+            defs = ["-DENUM_LO=(%d)" % lo, "-DENUM_HI=(%d)" % hi, "-DENUM_CLS=%s_SHELL" % cls] + (extra if first else ["-DENUM_NOEXTRA"])
+            first = False
+            gs.append(Group("%s.K2.CS_FluorLine.lines_%s.%d..%d" % (prefix, cls, lo, hi), "K2", "lemma_CS_FluorLine_enum", sources=["src/cs_line.c"],
+                            extra=["harness/h_fluor.c", stub_l, common.STATE], remove_bodies=["CS_FluorShell"], unwind=CH + 2,
+                            backends=("cvc5",), timeout=900, functions=["CS_FluorLine"], native_harness="harness/h_fluor.c",
+                            stubs_used=used_l, no_safety=no_safety, export_local=True, harness_defines=defs,
+                            expect_canaries=["no rate", "CS_FluorLine defined"], restrict_retry="V_RESTRICT_LEAVES",
+                            note="macro values %d..%d of the name-derived %s block, each with a constant line" % (lo, hi, cls)))
     stub_b, used_b = common.stubs(sc, LEAVES_SHELL + ["RadRate"], "fluorlb")
     gs.append(Group(prefix + ".K2.CS_FluorLine.LB", "K2", "lemma_CS_FluorLine", sources=["src/cs_line.c"],
                     extra=["harness/h_fluor.c", stub_b, common.STATE], remove_bodies=["CS_FluorShell"], unwind=12,
